@@ -44,8 +44,36 @@ def Hd (st : PState) (it : Item) : Prop := ∃ s, stream st = it :: s
 /-- all tokens in the state satisfy `S` -/
 def TokS (S : Item → Prop) (st : PState) : Prop := S st.tok0 ∧ S st.tok1 ∧ ∀ x ∈ st.rest, S x
 
-/-- invariant: at most two tokens are backed up, all tokens are `S`-tokens -/
-def Inv (S : Item → Prop) (st : PState) : Prop := st.peekCount ≤ 2 ∧ TokS S st
+/-- with "EOF only last" (`EL`): the channel holds no EOF item except possibly its last one,
+    and once an EOF item has been received the channel is empty -/
+def EofJ (st : PState) : Prop :=
+  (∀ x ∈ st.rest.dropLast, x.typ ≠ .tEOF) ∧ (st.tok0.typ = .tEOF → st.rest = []) ∧ (st.tok1.typ = .tEOF → st.rest = [])
+
+/-- invariant: at most two tokens are backed up, all tokens are `S`-tokens (and `EofJ` under `EL`) -/
+def Inv (EL : Prop) (S : Item → Prop) (st : PState) : Prop := st.peekCount ≤ 2 ∧ (EL → EofJ st) ∧ TokS S st
+
+theorem eofJ_pop {st : PState} {x : Item} {r : List Item} (h : EofJ st) (hr : st.rest = x :: r) :
+    EofJ { st with rest := r, tok0 := x } := by
+  obtain ⟨h1, h2, h3⟩ := h
+  rw [hr] at h1 h2 h3
+  refine ⟨?_, ?_, ?_⟩
+  · intro y hy
+    apply h1 y
+    cases r with
+    | nil => simp at hy
+    | cons z r' => simp only [List.dropLast_cons₂, List.mem_cons]; exact Or.inr hy
+  · intro hx
+    cases r with
+    | nil => rfl
+    | cons z r' => exact absurd hx (h1 x (by simp [List.dropLast]))
+  · intro ht; exact absurd (h3 ht) (by simp)
+
+theorem eofJ_pop_peek {st : PState} {x : Item} {r : List Item} (h : EofJ st) (hr : st.rest = x :: r) :
+    EofJ { st with rest := r, peekCount := 1, tok0 := x } := eofJ_pop (st := st) h hr
+
+theorem eofJ_zero {st : PState} (h : EofJ st) (hr : st.rest = []) : EofJ { st with tok0 := Item.zero } := by
+  obtain ⟨h1, h2, h3⟩ := h
+  exact ⟨h1, fun _ => hr, h3⟩
 
 theorem cnt_append (a b : List Item) : cnt (a ++ b) = cnt a + cnt b := by
   induction a with
@@ -103,8 +131,10 @@ theorem PSafe.fail_panic {α : Type} {AP : Prop} {S : Item → Prop} {st : PStat
 
 /-! ### primitives -/
 
-theorem inv_init (S : Item → Prop) (items : List Item) (hz : S Item.zero) (hs : ∀ x ∈ items, S x) :
-    Inv S (initState items) := ⟨by simp [initState], hz, hz, hs⟩
+theorem inv_init (S : Item → Prop) (items : List Item) (hz : S Item.zero) (hs : ∀ x ∈ items, S x)
+    (hel : EL → ∀ x ∈ items.dropLast, x.typ ≠ .tEOF) :
+    Inv EL S (initState items) :=
+  ⟨by simp [initState], fun h => ⟨hel h, fun h0 => by simp [initState, Item.zero] at h0, fun h0 => by simp [initState, Item.zero] at h0⟩, hz, hz, hs⟩
 
 theorem mu_init (items : List Item) : mu (initState items) ≤ items.length := by
   simp only [mu, stream, pending, initState, if_true, List.nil_append]
@@ -114,11 +144,11 @@ theorem mu_init (items : List Item) : mu (initState items) ≤ items.length := b
 
 /-- `t.next()` -/
 theorem next_safe {S : Item → Prop} {st : PState} {Q : Item → PState → Prop} (hz : S Item.zero)
-    (hi : Inv S st)
-    (hq : ∀ it st', Inv S st' → S it → st'.peekCount = st.peekCount - 1 → top st' = it → mu st' + real it = mu st →
+    (hi : Inv EL S st)
+    (hq : ∀ it st', Inv EL S st' → S it → st'.peekCount = st.peekCount - 1 → top st' = it → mu st' + real it = mu st →
       (∀ x, Hd st x → it = x) → Q it st') :
     PSafe AP S next st Q := by
-  obtain ⟨hpc, h0, h1, hr⟩ := hi
+  obtain ⟨hpc, hj, h0, h1, hr⟩ := hi
   unfold PSafe
   by_cases hp0 : st.peekCount = 0
   · cases hrest : st.rest with
@@ -127,7 +157,7 @@ theorem next_safe {S : Item → Prop} {st : PState} {Q : Item → PState → Pro
         simp [next, bind, StateT.bind, get, getThe, MonadStateOf.get, StateT.get, set, StateT.set, MonadStateOf.set, modify, modifyGet, MonadStateOf.modifyGet, StateT.modifyGet, pure, StateT.pure, Except.pure, Except.bind, nextItem, tokenAt, hp0, hrest]
       rw [this]
       apply hq
-      · exact ⟨by simp [hp0], hz, h1, by simp [hrest]⟩
+      · exact ⟨by simp [hp0], fun h => eofJ_zero (hj h) hrest, hz, h1, by simp [hrest]⟩
       · exact hz
       · simp [hp0]
       · simp [top, hp0]
@@ -139,7 +169,7 @@ theorem next_safe {S : Item → Prop} {st : PState} {Q : Item → PState → Pro
       rw [this]
       have hx : S x := hr x (by simp [hrest])
       apply hq
-      · exact ⟨by simp [hp0], hx, h1, fun y hy => hr y (by simp [hrest, hy])⟩
+      · exact ⟨by simp [hp0], fun h => eofJ_pop (hj h) hrest, hx, h1, fun y hy => hr y (by simp [hrest, hy])⟩
       · exact hx
       · simp [hp0]
       · simp [top, hp0]
@@ -150,7 +180,7 @@ theorem next_safe {S : Item → Prop} {st : PState} {Q : Item → PState → Pro
         simp [next, bind, StateT.bind, get, getThe, MonadStateOf.get, StateT.get, set, StateT.set, MonadStateOf.set, modify, modifyGet, MonadStateOf.modifyGet, StateT.modifyGet, pure, StateT.pure, Except.pure, Except.bind, nextItem, tokenAt, hp1]
       rw [this]
       apply hq
-      · exact ⟨by simp, h0, h1, hr⟩
+      · exact ⟨by simp, hj, h0, h1, hr⟩
       · exact h0
       · simp [hp1]
       · simp [top]
@@ -161,7 +191,7 @@ theorem next_safe {S : Item → Prop} {st : PState} {Q : Item → PState → Pro
         simp [next, bind, StateT.bind, get, getThe, MonadStateOf.get, StateT.get, set, StateT.set, MonadStateOf.set, modify, modifyGet, MonadStateOf.modifyGet, StateT.modifyGet, pure, StateT.pure, Except.pure, Except.bind, nextItem, tokenAt, hp2]
       rw [this]
       apply hq
-      · exact ⟨by simp, h0, h1, hr⟩
+      · exact ⟨by simp, hj, h0, h1, hr⟩
       · exact h1
       · simp [hp2]
       · simp [top]
@@ -170,15 +200,15 @@ theorem next_safe {S : Item → Prop} {st : PState} {Q : Item → PState → Pro
 
 /-- `t.backup()` right after a `next` (at most one token was backed up) -/
 theorem backup_safe {S : Item → Prop} {st : PState} {Q : Unit → PState → Prop}
-    (hi : Inv S st) (hpc : st.peekCount ≤ 1)
-    (hq : ∀ st', Inv S st' → mu st' = mu st + real (top st) → Hd st' (top st) → Q () st') :
+    (hi : Inv EL S st) (hpc : st.peekCount ≤ 1)
+    (hq : ∀ st', Inv EL S st' → mu st' = mu st + real (top st) → Hd st' (top st) → Q () st') :
     PSafe AP S backup st Q := by
-  obtain ⟨_, h0, h1, hr⟩ := hi
+  obtain ⟨_, hj, h0, h1, hr⟩ := hi
   have : backup st = .ok ((), { st with peekCount := st.peekCount + 1 }) := rfl
   unfold PSafe
   rw [this]
   apply hq
-  · exact ⟨by simp; omega, h0, h1, hr⟩
+  · exact ⟨by simp; omega, hj, h0, h1, hr⟩
   · by_cases hp0 : st.peekCount = 0
     · simp [mu, stream, pending, hp0, top, cnt]; omega
     · have hp1 : st.peekCount = 1 := by omega
@@ -191,24 +221,24 @@ theorem backup_safe {S : Item → Prop} {st : PState} {Q : Unit → PState → P
 
 /-- `t.backup2(t1)` after two `next`s (nothing is backed up) -/
 theorem backup2_safe {S : Item → Prop} {st : PState} {t1 : Item} {Q : Unit → PState → Prop}
-    (hi : Inv S st) (ht : S t1) (hpc : st.peekCount = 0)
-    (hq : ∀ st', Inv S st' → mu st' = mu st + real t1 + real (top st) → Hd st' t1 → Q () st') :
+    (hi : Inv EL S st) (ht : S t1) (hne : t1.typ ≠ .tEOF) (hpc : st.peekCount = 0)
+    (hq : ∀ st', Inv EL S st' → mu st' = mu st + real t1 + real (top st) → Hd st' t1 → Q () st') :
     PSafe AP S (backup2 t1) st Q := by
-  obtain ⟨_, h0, h1, hr⟩ := hi
+  obtain ⟨_, hj, h0, h1, hr⟩ := hi
   have : backup2 t1 st = .ok ((), { st with tok1 := t1, peekCount := 2 }) := rfl
   unfold PSafe
   rw [this]
   apply hq
-  · exact ⟨by simp, h0, ht, hr⟩
+  · exact ⟨by simp, fun h => ⟨(hj h).1, (hj h).2.1, fun h' => absurd h' hne⟩, h0, ht, hr⟩
   · simp [mu, stream, pending, hpc, top, cnt]; omega
   · exact ⟨st.tok0 :: st.rest, by simp [stream, pending]⟩
 
 /-- `t.peek()` -/
 theorem peek_safe {S : Item → Prop} {st : PState} {Q : Item → PState → Prop} (hz : S Item.zero)
-    (hi : Inv S st)
-    (hq : ∀ it st', Inv S st' → S it → mu st' = mu st → Hd st' it → 1 ≤ st'.peekCount → Q it st') :
+    (hi : Inv EL S st)
+    (hq : ∀ it st', Inv EL S st' → S it → mu st' = mu st → Hd st' it → 1 ≤ st'.peekCount → Q it st') :
     PSafe AP S peek st Q := by
-  obtain ⟨hpc, h0, h1, hr⟩ := hi
+  obtain ⟨hpc, hj, h0, h1, hr⟩ := hi
   unfold PSafe
   by_cases hp0 : st.peekCount = 0
   · cases hrest : st.rest with
@@ -217,7 +247,7 @@ theorem peek_safe {S : Item → Prop} {st : PState} {Q : Item → PState → Pro
         simp [peek, bind, StateT.bind, get, getThe, MonadStateOf.get, StateT.get, set, StateT.set, MonadStateOf.set, modify, modifyGet, MonadStateOf.modifyGet, StateT.modifyGet, pure, StateT.pure, Except.pure, Except.bind, nextItem, tokenAt, hp0, hrest]
       rw [this]
       apply hq
-      · exact ⟨by simp, hz, h1, by simp [hrest]⟩
+      · exact ⟨by simp, fun h => eofJ_zero (st := { st with peekCount := 1 }) (hj h) hrest, hz, h1, by simp [hrest]⟩
       · exact hz
       · simp [mu, stream, pending, hp0, hrest, cnt, real_zero]
       · exact ⟨[], by simp [stream, pending, hrest]⟩
@@ -228,7 +258,7 @@ theorem peek_safe {S : Item → Prop} {st : PState} {Q : Item → PState → Pro
       rw [this]
       have hx : S x := hr x (by simp [hrest])
       apply hq
-      · exact ⟨by simp, hx, h1, fun y hy => hr y (by simp [hrest, hy])⟩
+      · exact ⟨by simp, fun h => eofJ_pop_peek (hj h) hrest, hx, h1, fun y hy => hr y (by simp [hrest, hy])⟩
       · exact hx
       · simp [mu, stream, pending, hp0, hrest, cnt]
       · exact ⟨r, by simp [stream, pending]⟩
@@ -237,17 +267,17 @@ theorem peek_safe {S : Item → Prop} {st : PState} {Q : Item → PState → Pro
     · have : peek st = .ok (st.tok0, st) := by
         simp [peek, bind, StateT.bind, get, getThe, MonadStateOf.get, StateT.get, pure, StateT.pure, Except.pure, Except.bind, tokenAt, hp1]
       rw [this]
-      exact hq _ _ ⟨hpc, h0, h1, hr⟩ h0 rfl ⟨st.rest, by simp [stream, pending, hp1]⟩ (by omega)
+      exact hq _ _ ⟨hpc, hj, h0, h1, hr⟩ h0 rfl ⟨st.rest, by simp [stream, pending, hp1]⟩ (by omega)
     · have hp2 : st.peekCount = 2 := by omega
       have : peek st = .ok (st.tok1, st) := by
         simp [peek, bind, StateT.bind, get, getThe, MonadStateOf.get, StateT.get, pure, StateT.pure, Except.pure, Except.bind, tokenAt, hp2]
       rw [this]
-      exact hq _ _ ⟨hpc, h0, h1, hr⟩ h1 rfl ⟨st.tok0 :: st.rest, by simp [stream, pending, hp2]⟩ (by omega)
+      exact hq _ _ ⟨hpc, hj, h0, h1, hr⟩ h1 rfl ⟨st.tok0 :: st.rest, by simp [stream, pending, hp2]⟩ (by omega)
 
 /-- `t.errorf(...)`: always an error, positioned at a token of the state -/
-theorem errorf_safe {α : Type} {S : Item → Prop} {st : PState} {Q : α → PState → Prop} (hi : Inv S st) :
+theorem errorf_safe {α : Type} {S : Item → Prop} {st : PState} {Q : α → PState → Prop} (hi : Inv EL S st) :
     PSafe AP S (errorf : P α) st Q := by
-  obtain ⟨hpc, h0, h1, hr⟩ := hi
+  obtain ⟨hpc, hj, h0, h1, hr⟩ := hi
   unfold PSafe errorf errPos
   by_cases hp0 : st.peekCount = 0
   · simp [hp0]; exact ⟨_, h0, rfl⟩
@@ -270,24 +300,21 @@ theorem get_safe {S : Item → Prop} {st : PState} {Q : PState → PState → Pr
   rw [e]
   exact h
 
-/-- `t.unexpected(token, ...)` -/
+/-- `t.unexpected(token, ...)`: reports the position of `tok` -/
+theorem unexpected_eq {α : Type} (tok : Item) (st : PState) :
+    (unexpected tok : P α) st = .error (.err tok.pos) := by
+  rfl
+
 theorem unexpected_safe {α : Type} {S : Item → Prop} {st : PState} {tok : Item} {Q : α → PState → Prop}
-    (hi : Inv S st) (ht : S tok) : PSafe AP S (unexpected tok : P α) st Q := by
-  unfold unexpected
-  by_cases he : (tok.typ == .tError) = true
-  · simp only [he, if_true]
-    apply PSafe.bind
-    apply modify_safe
-    exact errorf_safe ⟨Nat.zero_le _, ht, hi.2.2.1, hi.2.2.2⟩
-  · simp only [he, Bool.false_eq_true, if_false]
-    first
-    | exact errorf_safe hi
-    | (apply PSafe.bind; apply PSafe.pure; exact errorf_safe hi)
+    (_hi : Inv EL S st) (ht : S tok) : PSafe AP S (unexpected tok : P α) st Q := by
+  unfold PSafe
+  rw [unexpected_eq]
+  exact ⟨tok, ht, rfl⟩
 
 /-- `t.expect(typ, ...)` -/
 theorem expect_safe {S : Item → Prop} {st : PState} {t : ItemType} {Q : Item → PState → Prop}
-    (hz : S Item.zero) (hi : Inv S st)
-    (hq : ∀ it st', Inv S st' → S it → st'.peekCount = st.peekCount - 1 → top st' = it →
+    (hz : S Item.zero) (hi : Inv EL S st)
+    (hq : ∀ it st', Inv EL S st' → S it → st'.peekCount = st.peekCount - 1 → top st' = it →
       mu st' + real it = mu st → it.typ = t → Q it st') :
     PSafe AP S (expect t) st Q := by
   unfold expect
